@@ -8,6 +8,7 @@
     normalisation heuristic; the encoder/decoder stream round trip. *)
 Require Import Zrs.lib.RsPrelude Zrs.gen.RefTables Zrs.gen.Generated Zrs.model.BitIO Zrs.model.FseDec.
 Require Import Zrs.proofs.C12_Fse.
+Require Import Zrs.model.BitIO Zrs.model.BitStream Zrs.model.SeqEnc Zrs.model.BlockDec Zrs.proofs.C12_Stream Zrs.proofs.C12_SeqStream.
 Open Scope Z_scope.
 
 Theorem C12_ll_predefined_eq_ref :
@@ -40,6 +41,35 @@ Proof. exact state_range_in_table. Qed.
 Theorem C12_spreading_step_is_a_permutation : forall al, 5 <= al <= 9 -> orbit_check al = true.
 Proof. exact spreading_step_is_a_permutation. Qed.
 
+(** backward bit streams: fields written least significant bit first, then a 1 bit and zero padding, are read back
+    from the end in reverse order with the same values, and the stream is then exactly exhausted -- for every list
+    of fields (this is how FSE-coded sequences, FSE-coded Huffman weights and Huffman-coded literals are framed) *)
+Theorem C12_backward_stream_inverse : forall fs, Forall field_ok fs ->
+  exists r, rbr_skip_padding (rbr_new (stream_bytes fs)) = Some r /\
+            let '(vals, r') := read_fields r (map snd (rev fs)) in
+            vals = map fst (rev fs) /\ rbr_bits_remaining r' = 0.
+Proof. exact stream_inverse. Qed.
+
+(** the sequences bit stream: what the compressor writes for a list of sequences (field order and state selection of
+    encode_sequences, with the encoder tables derived from the decoding tables -- the executable model whose output is
+    compared byte for byte with the real compressor's on every run) is read by the steps of decode_sequences back
+    into the same sequences, consuming the stream exactly; for every list of sequences and all tables in which every
+    state index is covered by a state of each used symbol (a decidable property, implied by the tiling of state ranges) *)
+Theorem C12_sequences_stream_roundtrip : forall Dll Dml Dof sl sm so qs,
+  table_wf Dll -> table_wf Dml -> table_wf Dof ->
+  Forall (covers Dll) sl -> Forall (covers Dml) sm -> Forall (covers Dof) so ->
+  qs <> [] -> Forall cseq_ok qs -> Forall (q_in sl sm so) qs ->
+  let bytes := stream_bytes (enc_fields (enc_of_dec Dll) (enc_of_dec Dml) (enc_of_dec Dof) qs) in
+  exists r0 ll r1 of r2 ml r3 vals rf,
+    rbr_skip_padding (rbr_new bytes) = Some r0 /\
+    fse_init_state Dll r0 = ROk (ll, r1) /\ fse_init_state Dof r1 = ROk (of, r2) /\ fse_init_state Dml r2 = ROk (ml, r3) /\
+    seq_loop (length qs) (Z.of_nat (length qs)) (sc Dll Dml Dof) ll ml of r3 0 [] = ROk (rev vals, rf) /\
+    Forall2 (fun q v => cseq_value q = Some v) qs vals /\
+    rbr_bits_remaining rf = 0.
+Proof. exact derived_encoder_roundtrip. Qed.
+
+Print Assumptions C12_backward_stream_inverse.
+Print Assumptions C12_sequences_stream_roundtrip.
 Print Assumptions C12_ll_predefined_eq_ref.
 Print Assumptions C12_ml_predefined_eq_ref.
 Print Assumptions C12_of_predefined_eq_ref.
